@@ -11,22 +11,8 @@ HARNESSES = [dict(name="session", pkg="./pkg/session/", test="TestVerifC17", fil
              dict(name="pppoe", pkg="./internal/pppoe/", test="TestVerifC17Callers", timeout=600,
                   files=[("internal/pppoe/zz_verif_c17_test.go", "harness/C17/zz_verif_c17_pppoe_test.go")])]
 MODEL_NEEDS_IMPL = True
-# Model variants (only e2e and pppoe caller cases depend on them).  "repaired" = every recorded repair; the others lack
-# one or both of the two repairs still proposed (see KNOWN_FINDINGS.txt); /repo HEAD today = "unclaimed_and_superseded".
-# The repair of eviction-kills-displacing-session (94649ad) is part of every variant: a regression there is a VIOLATION.
-VARIANTS = ["repaired", "unclaimed_paths", "superseded_survives", "unclaimed_and_superseded"]
-SIGS = {"unclaimed_paths": "ipoe-session-without-claim", "superseded_survives": "pppoe-superseded-session-survives",
-        "unclaimed_and_superseded": "ipoe-session-without-claim+pppoe-superseded-session-survives"}
-
-
-def signature(case, impl, models):
-    """the weakest set of open findings that explains the implementation's line"""
-    if not case.startswith(("e2e", "pppoe")):
-        return None
-    for v in VARIANTS[1:]:
-        if impl == models.get(v):
-            return SIGS[v]
-    return None
+# No model variants: all recorded C17 findings are fixed in /repo (94649ad, c1f4ba1, 49433a1); the model is what HEAD does and a
+# regression to any of them is a VIOLATION.
 RULE = ("seq: random sequential histories (1..40 ops) of Claim/Release/IsOwner/Lookup by 2..5 sessions of both protocols "
         "(plus rare foreign protocol strings, empty session ids, Owner.Key different from the claimed key) over 1..4 tuples "
         "drawn from a pool with colliding and non-colliding shard hashes, same MAC on different C-VLANs, VLAN 0/65535; "
